@@ -446,7 +446,7 @@ class Bin(Factory, Container):
             and np.all(np.isfinite(weights))
         ):
             # Numpy defines histograms as including the upper edge of the last bin only, so drop that
-            weights[q == self.high] == 0.0
+            weights[q == self.high] = 0.0
 
             h, _ = np.histogram(q, self.num, (self.low, self.high), weights=weights)
 
